@@ -228,6 +228,13 @@ def c19_unencodable():
         run_case("apply_serialized(t,data=unencodable)", dict(d, f="apply_serialized", pos="data", kw=True), lambda: jsonlogic_rs.apply_serialized('{"var":"k"}', data=t), None, None)
         run_case("apply_serialized(unencodable,dt,deserializer)", dict(d, f="apply_serialized", pos="rule", deserializer="tagged"), lambda: jsonlogic_rs.apply_serialized(t, "1", tagged), None, None)
         run_case("apply(v,d,unencodable-serializer)", dict(d, f="apply", serializer="returns it"), lambda: jsonlogic_rs.apply({"var": ""}, 1, lambda o: t), None, None)
+        # a surrogate PAIR held as two code points is a spelling of one astral character: the default serializer
+        # escapes both halves and the decoder joins them
+        pair = "\ud83d\ude00"
+        for rule, data in (({"var": ""}, pair), ({"var": "\U0001f600"}, {pair: 5}), (pair, None), ({"cat": [pair, {"var": ""}]}, "x" + pair), ({"in": ["\U0001f600", {"var": ""}]}, pair)):
+            rt, dt = json.dumps(rule), json.dumps(data)
+            run_case("apply(surrogate-pair)", dict(d, f="apply", rule=ascii(rule), data=ascii(data)), lambda: jsonlogic_rs.apply(rule, data), rt, dt)
+            run_case("apply_serialized(surrogate-pair-escapes)", dict(d, f="apply_serialized", rule=ascii(rule), data=ascii(data)), lambda: jsonlogic_rs.apply_serialized(rt, dt), rt, dt)
         # the same characters inside Python values: the default serializer escapes them, and a lone-surrogate
         # escape is not JSON text either; a serializer that keeps them raw yields an unencodable text
         v = "x\ud800y"
@@ -352,6 +359,18 @@ def c19_history():
         calls.append(("LR[0]=%r; apply(LR)" % v, (lambda v=v: edit_list_rule(v))))
         calls.append(("DL[0]=%r; apply({'var':0},DL)" % v, (lambda v=v: edit_list_data(v))))
     calls.append(("R.var='a'; D.a=1; apply(R,D,compact)", lambda: (R.clear(), R.__setitem__("var", "a"), D.__setitem__("a", 1), jsonlogic_rs.apply(R, D, compact))[-1]))
+    # large documents (beyond any small-size path), well-formed and malformed, the same text presented again
+    good = json.dumps({"a": 1, "rows": [{"i": i, "t": "row %d" % i} for i in range(100)]})
+    bad = good[:-1]
+    good2 = good.replace('"a": 1', '"a": 2')
+    big_nan = list(range(1000)) + [float("nan")]
+    calls.append(("apply_serialized('{\"var\":\"a\"}', GOOD)", lambda: jsonlogic_rs.apply_serialized('{"var":"a"}', good)))
+    calls.append(("apply_serialized('{\"var\":\"a\"}', GOOD2)", lambda: jsonlogic_rs.apply_serialized('{"var":"a"}', good2)))
+    calls.append(("apply_serialized('{\"var\":\"a\"}', BAD)", lambda: jsonlogic_rs.apply_serialized('{"var":"a"}', bad)))
+    calls.append(("apply_serialized(BAD-as-rule)", lambda: jsonlogic_rs.apply_serialized(bad, "1")))
+    calls.append(("apply_serialized(GOOD-as-rule)", lambda: jsonlogic_rs.apply_serialized(good, "1")))
+    calls.append(("apply({'var':0}, 1000 ints + nan)", lambda: jsonlogic_rs.apply({"var": 0}, big_nan)))
+    calls.append(("apply({'var':0}, 1000 ints)", lambda: jsonlogic_rs.apply({"var": 0}, big_nan[:-1])))
     calls.append(("apply({'var':''},1,compact)", lambda: jsonlogic_rs.apply({"var": ""}, 1, compact)))
     calls.append(("apply({'var':''},1.0,None,tagged)", lambda: jsonlogic_rs.apply({"var": ""}, 1.0, None, tagged)))
     calls.append(("apply_serialized('{\"var\":\"\"}','true',tagged)", lambda: jsonlogic_rs.apply_serialized('{"var":""}', "true", tagged)))
@@ -400,6 +419,10 @@ def c19_history():
         if pid == 0:
             try:
                 bump(0)
+                # the watching parent sees progress from the snapshots themselves (a subtree of depth 3 takes a while)
+                (n_now,) = struct.unpack_from("<Q", counters, 0)
+                if _prog_fd is not None and n_now % 16 == 0:
+                    os.pwrite(_prog_fd, struct.pack("<Q", (1 << 42) + n_now), 0)
                 o = outcome(calls[c][1])
                 h = history + [c]
                 if o != iso[c]:
